@@ -19,12 +19,38 @@ type uField struct {
 	PType    int    // proto type number the scalar compiles to
 	J5Kind   string // name of the (j5.ext.v1.field) alternative
 	Required bool
-	Bang     bool // print required as '!' instead of an attribute
+	Bang     bool // print required as '!' / optional as '?' instead of an attribute
+	Foreign  *[2]string // (package, entity) of a foreign key
+	Optional bool
+	Obj      string // object:<Name> reference to a schema of the package ("" = not a reference)
+	// SayFalse prints the boolean attributes that are off explicitly (`primary = false`,
+	// `required = false`, `optional = false`): same declaration, different text
+	SayFalse bool
+}
+
+type eSchema struct {
+	Name   string
+	Fields []uField
 }
 
 type eKey struct {
 	uField
 	Shard bool
+}
+
+// text-only variation: `shardKey = false` spelled out
+func (k eKey) extraAttrs() []string {
+	var out []string
+	if k.Key && !k.Primary && k.Foreign == nil && k.SayFalse {
+		// `primary` is an attribute of entity keys only
+		out = append(out, "primary = false")
+	}
+	if k.Shard {
+		out = append(out, "shardKey = true")
+	} else if k.SayFalse {
+		out = append(out, "shardKey = false")
+	}
+	return out
 }
 
 type eEvent struct {
@@ -36,24 +62,30 @@ type eMethod struct {
 	Name     string
 	Verb     int // client_j5pb.HTTPMethod
 	Path     string
-	Request  []uField
-	Response []uField
+	Request    []uField
+	Response   []uField
+	NoResponse bool // no response block: google.api.HttpBody
 }
 
 type eCommand struct {
 	Name    *string
 	Base    *string
 	Methods []eMethod
-}
-
-type eSummary struct {
-	Name   string
-	Fields []uField
+	// Audience, when non-nil, gives the command its own options block (audience / default auth).
+	// acceptCommands replaces the declared options by the state_command annotation.
+	Audience    []string
+	OptionsForm int // 0 block, 1 dotted attributes
 }
 
 type eQuery struct {
 	EventsInGet   bool
 	DefaultStatus []string
+	SayFalse      bool // `eventsInGet = false` spelled out
+}
+
+type eSummary struct {
+	Name   string
+	Fields []uField
 }
 
 type entityDecl struct {
@@ -67,6 +99,8 @@ type entityDecl struct {
 	Commands  []eCommand
 	Summaries []eSummary
 	Query     *eQuery
+	Schemas   []eSchema // objects declared inside the entity block
+	second    bool      // generated as the second entity of a file
 }
 
 // ---- Coq terms ---------------------------------------------------------------------
@@ -80,10 +114,16 @@ func optBytes(s *string) string {
 
 func (u uField) coq() string {
 	kind := fmt.Sprintf("(KScalar %d %s)", u.PType, vh.BytesTerm(u.J5Kind))
-	if u.Key {
-		kind = fmt.Sprintf("(KKey %s %s)", vh.BoolTerm(u.Primary), optBytes(u.Tenant))
+	if u.Obj != "" {
+		kind = fmt.Sprintf("(KObject %s)", vh.BytesTerm(u.Obj))
+	} else if u.Key {
+		foreign := "None"
+		if u.Foreign != nil {
+			foreign = fmt.Sprintf("(Some (%s, %s))", vh.BytesTerm(u.Foreign[0]), vh.BytesTerm(u.Foreign[1]))
+		}
+		kind = fmt.Sprintf("(KKey %s %s %s)", vh.BoolTerm(u.Primary), foreign, optBytes(u.Tenant))
 	}
-	return fmt.Sprintf("(mkU %s %s %s)", vh.BytesTerm(u.Name), kind, vh.BoolTerm(u.Required))
+	return fmt.Sprintf("(mkU %s %s %s %s)", vh.BytesTerm(u.Name), kind, vh.BoolTerm(u.Required), vh.BoolTerm(u.Optional))
 }
 
 func coqList[T any](xs []T, f func(T) string) string {
@@ -101,7 +141,7 @@ func (d *entityDecl) coq() string {
 	if d.Query != nil {
 		q = fmt.Sprintf("(Some (mkQ %s %s))", vh.BoolTerm(d.Query.EventsInGet), coqList(d.Query.DefaultStatus, vh.BytesTerm))
 	}
-	return fmt.Sprintf("(mkE %s %s %s %s %s %s %s %s %s %s)",
+	return fmt.Sprintf("(mkE %s %s %s %s %s %s %s %s %s %s %s)",
 		vh.BytesTerm(d.Pkg), vh.BytesTerm(d.Name), vh.BytesTerm(d.BaseURL),
 		coqList(d.Keys, func(k eKey) string { return fmt.Sprintf("(mkK %s %s)", k.uField.coq(), vh.BoolTerm(k.Shard)) }),
 		fieldsCoq(d.Data),
@@ -109,11 +149,16 @@ func (d *entityDecl) coq() string {
 		coqList(d.Events, func(e eEvent) string { return fmt.Sprintf("(mkEv %s %s)", vh.BytesTerm(e.Name), fieldsCoq(e.Fields)) }),
 		coqList(d.Commands, func(c eCommand) string {
 			return fmt.Sprintf("(mkC %s %s %s)", optBytes(c.Name), optBytes(c.Base), coqList(c.Methods, func(m eMethod) string {
-				return fmt.Sprintf("(mkM %s %d %s %s %s)", vh.BytesTerm(m.Name), m.Verb, vh.BytesTerm(m.Path), fieldsCoq(m.Request), fieldsCoq(m.Response))
+				resp := "None"
+				if !m.NoResponse {
+					resp = "(Some " + fieldsCoq(m.Response) + ")"
+				}
+				return fmt.Sprintf("(mkM %s %d %s %s %s)", vh.BytesTerm(m.Name), m.Verb, vh.BytesTerm(m.Path), fieldsCoq(m.Request), resp)
 			}))
 		}),
 		coqList(d.Summaries, func(s eSummary) string { return fmt.Sprintf("(mkS %s %s)", vh.BytesTerm(s.Name), fieldsCoq(s.Fields)) }),
-		q)
+		q,
+		coqList(d.Schemas, func(s eSchema) string { return fmt.Sprintf("(%s, %s)", vh.BytesTerm(s.Name), fieldsCoq(s.Fields)) }))
 }
 
 // ---- j5s text ----------------------------------------------------------------------
@@ -121,6 +166,9 @@ func (d *entityDecl) coq() string {
 var verbNames = map[int]string{1: "GET", 2: "POST", 3: "PUT", 4: "DELETE", 5: "PATCH"}
 
 func (u uField) j5sType() string {
+	if u.Obj != "" {
+		return "object:" + u.Obj
+	}
 	if !u.Key {
 		return u.J5Type
 	}
@@ -135,11 +183,23 @@ func printField(sb *strings.Builder, indent, word string, u uField, extra ...str
 	sb.WriteString(indent + word + " " + u.Name + " ")
 	if u.Required && u.Bang {
 		sb.WriteString("! ")
+	} else if u.Optional && u.Bang {
+		sb.WriteString("? ")
 	}
 	sb.WriteString(u.j5sType())
 	var attrs []string
 	if u.Required && !u.Bang {
 		attrs = append(attrs, "required = true")
+	} else if !u.Required && u.SayFalse {
+		attrs = append(attrs, "required = false")
+	}
+	if u.Optional && (!u.Bang || u.Required) {
+		attrs = append(attrs, "optional = true")
+	} else if !u.Optional && u.SayFalse {
+		attrs = append(attrs, "optional = false")
+	}
+	if u.Key && u.Foreign != nil {
+		attrs = append(attrs, fmt.Sprintf("foreign = %q", u.Foreign[0]+"."+u.Foreign[1]))
 	}
 	if u.Key && u.Primary {
 		attrs = append(attrs, "primary = true")
@@ -159,18 +219,37 @@ func printField(sb *strings.Builder, indent, word string, u uField, extra ...str
 	sb.WriteString(indent + "}\n")
 }
 
-func (d *entityDecl) j5s() string {
+// fileDecl is one source file: entity declarations of one package.
+type fileDecl struct {
+	Ents []*entityDecl
+}
+
+func (f *fileDecl) pkg() string      { return f.Ents[0].Pkg }
+func (f *fileDecl) filename() string { return f.Ents[0].filename() }
+func (f *fileDecl) coq() string {
+	return coqList(f.Ents, func(d *entityDecl) string { return d.coq() })
+}
+func (f *fileDecl) j5s() string {
 	var sb strings.Builder
-	sb.WriteString("package " + d.Pkg + "\n\nentity " + d.Name + " {\n")
+	sb.WriteString("package " + f.pkg() + "\n")
+	for _, d := range f.Ents {
+		sb.WriteString("\n" + d.block())
+	}
+	return sb.String()
+}
+
+func (d *entityDecl) j5s() string {
+	return "package " + d.Pkg + "\n\n" + d.block()
+}
+
+func (d *entityDecl) block() string {
+	var sb strings.Builder
+	sb.WriteString("entity " + d.Name + " {\n")
 	if d.BaseURL != "" {
 		fmt.Fprintf(&sb, "\tbaseUrlPath = %q\n", d.BaseURL)
 	}
 	for _, k := range d.Keys {
-		if k.Shard {
-			printField(&sb, "\t", "key", k.uField, "shardKey = true")
-		} else {
-			printField(&sb, "\t", "key", k.uField)
-		}
+		printField(&sb, "\t", "key", k.uField, k.extraAttrs()...)
 	}
 	for _, f := range d.Data {
 		printField(&sb, "\t", "data", f)
@@ -193,6 +272,17 @@ func (d *entityDecl) j5s() string {
 		if c.Base != nil {
 			fmt.Fprintf(&sb, "\t\tbasePath = %q\n", *c.Base)
 		}
+		if c.Audience != nil {
+			q := make([]string, len(c.Audience))
+			for i, a := range c.Audience {
+				q[i] = fmt.Sprintf("%q", a)
+			}
+			if c.OptionsForm == 0 {
+				sb.WriteString("\t\toptions {\n\t\t\taudience = [" + strings.Join(q, ", ") + "]\n\t\t}\n")
+			} else {
+				sb.WriteString("\t\toptions.audience = [" + strings.Join(q, ", ") + "]\n\t\toptions.defaultAuth.none {\n\t\t}\n")
+			}
+		}
 		for _, m := range c.Methods {
 			sb.WriteString("\t\tmethod " + m.Name + " {\n")
 			fmt.Fprintf(&sb, "\t\t\thttpMethod = %q\n", verbNames[m.Verb])
@@ -201,11 +291,15 @@ func (d *entityDecl) j5s() string {
 			for _, f := range m.Request {
 				printField(&sb, "\t\t\t\t", "field", f)
 			}
-			sb.WriteString("\t\t\t}\n\t\t\tresponse {\n")
-			for _, f := range m.Response {
-				printField(&sb, "\t\t\t\t", "field", f)
+			sb.WriteString("\t\t\t}\n")
+			if !m.NoResponse {
+				sb.WriteString("\t\t\tresponse {\n")
+				for _, f := range m.Response {
+					printField(&sb, "\t\t\t\t", "field", f)
+				}
+				sb.WriteString("\t\t\t}\n")
 			}
-			sb.WriteString("\t\t\t}\n\t\t}\n")
+			sb.WriteString("\t\t}\n")
 		}
 		sb.WriteString("\t}\n")
 	}
@@ -220,10 +314,19 @@ func (d *entityDecl) j5s() string {
 		}
 		sb.WriteString("\t}\n")
 	}
+	for _, sc := range d.Schemas {
+		sb.WriteString("\tobject " + sc.Name + " {\n")
+		for _, f := range sc.Fields {
+			printField(&sb, "\t\t", "field", f)
+		}
+		sb.WriteString("\t}\n")
+	}
 	if d.Query != nil {
 		sb.WriteString("\tquery {\n")
 		if d.Query.EventsInGet {
 			sb.WriteString("\t\teventsInGet = true\n")
+		} else if d.Query.SayFalse {
+			sb.WriteString("\t\teventsInGet = false\n")
 		}
 		if len(d.Query.DefaultStatus) > 0 {
 			q := make([]string, len(d.Query.DefaultStatus))
